@@ -475,6 +475,16 @@ func (fc *FnCtx) evalCall(x *ECall, env *Env) Val {
 			fc.fail("sliceoff of kind %d", v.K)
 		}
 		return intVal(v.C[1])
+	case "called":
+		// called("F"): a call to F was executed on the path leading here
+		lit, ok := x.Args[0].(*ELit)
+		if !ok || lit.Kind != "string" {
+			fc.fail("called expects a function name string")
+		}
+		if _, ok := fc.heapSort["$called."+lit.Val]; !ok {
+			fc.fail("unknown identifier called(%s)", lit.Val)
+		}
+		return boolVal(fc.getHeapTerm(h, "$called."+lit.Val, SBool))
 	case "callarg":
 		// callarg("F", k): the k-th argument of the latest call to F that dominates this point
 		lit, ok := x.Args[0].(*ELit)
@@ -515,6 +525,10 @@ func (fc *FnCtx) evalCall(x *ECall, env *Env) Val {
 			fc.fail("callres expects a function name string")
 		}
 		v, found := fc.callResult(lit.Val)
+		if !found {
+			// no dominating call: the latest call on the current path (see called("F"))
+			v, found = fc.pathCallRes(lit.Val, h)
+		}
 		if !found {
 			fc.fail("unknown identifier callres(%s)", lit.Val)
 		}
